@@ -313,6 +313,21 @@ C08_ReadLinearizable ==
             IN \A y \in S : /\ rs.index >= gh.reads[y].atIssue
                             /\ gh.reads[y].node = an
 
+(* a read is answered only after a quorum of the active configuration acknowledged a heartbeat that
+   carried it (or a later read); a request that is answered at once needs the leader alone to be a quorum *)
+PendingCtxs(n) == DOMAIN n.ro.pending
+C08_AnswerNeedsQuorum ==
+    (SameInc /\ P.role = "L" /\ Q.role = "L" /\ P.term = Q.term) =>
+        LET answered == PendingCtxs(P) \ PendingCtxs(Q)
+            newAck == IF evt.ev = "Deliver" /\ M.ty = "HBResp" THEN {M.from}
+                      ELSE IF evt.ev \in {"Apply", "Advance"} THEN {an} ELSE {}
+            immediate == /\ (evt.ev = "ReadIndex" \/ (evt.ev = "Deliver" /\ M.ty = "ReadIndex"))
+                         /\ PendingCtxs(Q) = PendingCtxs(P)
+                         /\ (Len(Q.readStates) > Len(P.readStates)
+                              \/ \E x \in DOMAIN evt.gen : evt.gen[x].ty = "ReadIndexResp")
+        IN /\ answered # {} => \E c \in answered : QuorumOf(P.ro.pending[c].acks \cup newAck, Q.conf)
+           /\ immediate => QuorumOf({an}, Q.conf)
+
 -----------------------------------------------------------------------------
 (* C09  Membership changes                                                   *)
 
@@ -600,7 +615,7 @@ Violations ==
     \cup Chk("C07.MustSync", C07_MustSync) \cup Chk("C07.SnapshotAlone", C07_SnapshotAlone)
     \cup Chk("C07.HasReadyExact", C07_HasReadyExact) \cup Chk("C07.ReadyNonEmpty", C07_ReadyNonEmpty)
     \cup Chk("C07.StorageContract", C07_StorageContract)
-    \cup Chk("C08.ReadLinearizable", C08_ReadLinearizable)
+    \cup Chk("C08.ReadLinearizable", C08_ReadLinearizable) \cup Chk("C08.AnswerNeedsQuorum", C08_AnswerNeedsQuorum)
     \cup Chk("C09.OnePendingConf", C09_OnePendingConf) \cup Chk("C09.ProposalFilter", C09_ProposalFilter)
     \cup Chk("C09.ConfFunctionOfLog", C09_ConfFunctionOfLog)
     \cup Chk("C09.NoCampaignOverUnappliedConf", C09_NoCampaignOverUnappliedConf)
